@@ -33,7 +33,7 @@ ASSUMPTIONS = [
     "series (a category absent from both is passed explicitly via ncat)",
     "KGE uses the 2009 formulation (ratio of standard deviations, any common ddof)",
 ]
-OBLIGATIONS = {"order:obs-sorted": 10, "order:opposite": 10, "order:constant-sim": 10,
+OBLIGATIONS = {"order:obs-sorted": 10, "order:opposite": 10, "order:constant-sim": 10, "order:sim-high-level": 10,
                "bias:standard": 50, "bias:normalised": 50, "bias:log": 50,
                "nse": 50, "kge": 50, "corr:Pearson:mean": 30,
                "corr:Pearson:median": 30, "corr:Spearman:mean": 30,
@@ -265,9 +265,12 @@ def run_scores_case(ctx, case):
     ctx.api("kge")
     got = call(m.kge, obs, sim, trans, excl)
     ss = float(np.std(tsv))
-    if ss > 1e-6 * max(1e-300, float(np.max(np.abs(tsv)))):
+    ms_ = abs(fmean(sl))
+    # judged whenever the spread of the simulation is well above its rounding level
+    # (mean / std up to 1e11), with a tolerance that follows that conditioning
+    if ss > 1e-11 * max(1e-300, float(np.max(np.abs(tsv)))) and ss > 1e-9:
         ref = ref_kge(tl, sl)
-        cs = cond(tsv) or 1e6
+        cs = cond(tsv) or (1 + ms_ / ss)
         ctx.check("kge.definition", eq(got, ref, 1e-12 * (c + cs) * (1 + abs(ref))),
                   "kge|definition" + ("|excludenull" if excl else ""), case,
                   lambda: {"got": repr(got), "ref": ref, **base})
@@ -300,6 +303,10 @@ def run_scores_case(ctx, case):
         basev = allscores(obs.copy(), sim.copy())
     except Exception:
         basev = None
+    if basev is not None and len(obs) <= 60 and not excl:
+        ctx.reuse("scores", allscores, [obs, sim], basev, case, rtol=1e-9,
+                  atol=1e-10 * c * (1 + float(np.max(np.abs(tov))) +
+                                    float(np.max(np.abs(tsv)))))
     if basev is not None:
         # (numpy sums strided data in another order: tolerance follows the magnitudes)
         ctx.presentations("scores", allscores, [obs, sim], basev, case, prng, rtol=1e-9,
@@ -572,6 +579,14 @@ def run(ctx):
         elif sp == 3:
             sim = np.full_like(sim, float(sim[0]))
             ctx.tag("order:constant-sim")
+        elif sp == 4:
+            # a simulation sitting at a high level with a spread far below 1e-10 of
+            # that level, yet far above rounding (a storage volume in m3, say)
+            lev = float(10.0 ** rng.integers(6, 9))
+            sim = lev + (sim - sim.mean()) / max(float(np.std(sim)), 1e-300) * \
+                lev * 10 ** rng.uniform(-10.8, -10.1)
+            positive = positive and bool(np.all(sim > 0))
+            ctx.tag("order:sim-high-level")
         tnm, tkw = gen_transform(rng, positive)
         case = {"kind": "scores", "obs": obs, "sim": sim, "trans": [tnm, tkw],
                 "excludenull": False}
